@@ -19,7 +19,7 @@ Ascending(s) == \A i \in 1 .. Len(s) - 1 : s[i] <= s[i + 1]
 StrictAsc(s) == \A i \in 1 .. Len(s) - 1 : s[i] < s[i + 1]
 (* s enumerates exactly the set S in increasing order *)
 IsSortedEnum(s, S) == StrictAsc(s) /\ Range(s) = S /\ Len(s) = Cardinality(S)
-NoDup(s) == \A i, j \in DOMAIN s : i # j => s[i] # s[j]
+NoDup(s) == Cardinality(Range(s)) = Len(s)
 
 (* ---- addresses ---- *)
 ALe(a, b) == a[1] < b[1] \/ (a[1] = b[1] /\ a[2] <= b[2])
